@@ -385,8 +385,73 @@ def proj_public(x, version):
     return ('obj', id(x))
 
 
+# ------------------------------------------------------------------ deep documents
+# A chain <e><e>...<e><x>t</x></e>...</e></e> of `depth` e elements (every `branch`-th one has a second child <s/>
+# after the chain), whose node lists are known by construction: "every XML tree" includes trees deeper than the
+# interpreter's recursion limit.  No reference table is built for these (the harness itself must not recurse).
+def deep_expectations(depth, branch):
+    ns = len([k for k in range(1, depth + 1) if k % branch == 0])      # <s/> siblings
+    return [
+        ('//e', depth), ('//x/text()', 1), ('//x/ancestor::e', depth), ('//x/ancestor-or-self::*', depth + 1),
+        ('/descendant-or-self::node()', 1 + depth + 2 + ns), ('/e/descendant::x', 1), ('//s', ns),
+        ('//x/preceding::*', 0), ('//x/following::*', ns), ('//s/preceding::x', 1 if ns else 0),
+        ('(//e)[last()]/x', 1), ('//e[not(e)]', 1), ('//e[s]', ns), ('/e//e', depth - 1),
+        ('//x/ancestor::e[1]/ancestor::e', depth - 1), ('//e/parent::e', depth - 1), ('//e/..', depth),
+        ('/e/descendant-or-self::e[x]', 1), ('//s/preceding-sibling::e', ns if depth % branch else max(ns - 1, 0)),
+        ('//text()/ancestor::node()', depth + 2), ('//e/x | //e/s', 1 + ns),
+    ]
+
+
+def check_deep(case, out):
+    import xml.etree.ElementTree as ET
+    from lxml import etree as LE
+    depth, branch, lib = case['depth'], case['branch'], case['lib']
+    mod = ET if lib == 'et' else LE
+    root = cur = mod.Element('e')
+    chain = [root]
+    for _ in range(depth - 1):
+        cur = mod.SubElement(cur, 'e')
+        chain.append(cur)
+    x = mod.SubElement(cur, 'x')
+    x.text = 't'
+    for k, e in enumerate(chain, 1):
+        if k % branch == 0 and e is not cur:
+            mod.SubElement(e, 's')
+    # the innermost e has x as only child; an <s/> there would follow x inside the same parent
+    if depth % branch == 0:
+        mod.SubElement(cur, 's')
+    tree = mod.ElementTree(root)
+    out.dim('deep_depth', depth)
+    for ver in case['vers']:
+        for text, n in deep_expectations(depth, branch):
+            if text == '//s/preceding-sibling::e':
+                n = len([k for k in range(1, depth) if k % branch == 0])
+            def run(text=text, ver=ver):
+                tok = PARSERS[ver]().parse(text)
+                return list(tok.select(XPathContext(root=tree)))
+            res = call(run)
+            out.dim('deep_evaluations', ver)
+            if res[0] != 'ok':
+                out.fail('C01/deep-document/raised/%s' % (res[2] if len(res) > 2 else res[1]),
+                         'depth %d %s %s (%s): %r' % (depth, lib, text, ver, res))
+                return
+            got = res[1]
+            if len(got) != n or len({id(g) for g in got}) != len(got):
+                out.fail('C01/deep-document/wrong-node-count', 'depth %d %s %s (%s): %d nodes (%d distinct), expected %d'
+                         % (depth, lib, text, ver, len(got), len({id(g) for g in got}), n))
+                return
+            pos = [g.position for g in got]
+            if pos != sorted(pos):
+                out.fail('C01/deep-document/not-in-document-order', 'depth %d %s %s (%s)' % (depth, lib, text, ver))
+                return
+    out.obs = 'chain of depth %d (%s), %d expressions x %s' % (depth, lib, len(deep_expectations(depth, branch)), case['vers'])
+
+
 def check_case(kind, case):
     out = Outcome()
+    if kind == 'deep':
+        check_deep(case, out)
+        return out
     twin, root_obj, fragment, table, has_doc = build(case)
     lib, mode = case['lib'], case['mode']
     r = call(get_node_tree, root_obj, NS_POOL, None, fragment)
@@ -482,8 +547,9 @@ def check_case(kind, case):
         vals = [got_by_version[v] for v in VERSIONS]
         if any(v != vals[0] for v in vals[1:]) and all(not isinstance(v, tuple) for v in vals):
             out.fail('C01/version-disagreement', '%s: %s' % (text, {v: got_by_version[v] for v in VERSIONS}))
-        # public call forms (element / document context only)
-        if ctx_model.kind in ('doc', 'elem') and isinstance(got_by_version['2.0'], list):
+        # public call forms (contexts that have a wrapped object of their own: document, element, comment, PI)
+        if ctx_model.kind in ('doc', 'elem', 'comment', 'pi') and isinstance(got_by_version['2.0'], list):
+            out.dim('public_context_kind', ctx_model.kind)
             check_public(out, case, twin, root_obj, fragment, table, ctx_model, text, raw_by_version, has_doc, mode)
     out.nontrivial = nonempty > 0
     out.obs = '%s/%s %d nodes, %d expressions, %d non-empty, e.g. %s' % (
@@ -663,11 +729,16 @@ def strip_abs(path):
 
 def run(h):
     r = h.rng
+    if h.shard == 0:
+        for depth, branch, lib in ((40, 7, 'et'), (1100, 100, 'et'), (1600, 250, 'lxml'), (r.randrange(1200, 2600), r.choice([64, 333, 1000]), r.choice(['et', 'lxml']))):
+            h.case('deep', {'depth': depth, 'branch': branch, 'lib': lib, 'vers': ['1.0', '3.1'] if depth > 100 else VERSIONS})
     for _ in range(h.n(2200)):
         h.case('paths', g_case(r))
 
 
 def shrink(kind, case):
+    if kind == 'deep':
+        return
     # one expression at a time
     if len(case['exprs']) > 1:
         for e in case['exprs']:
@@ -728,6 +799,8 @@ def floors(v):
             reasons.append('axis %s seen in fewer than 20 non-empty results' % a)
     if v.got('oracle', 'libxml2-comparisons') < 200:
         reasons.append('fewer than 200 libxml2 comparisons')
+    if v.got('deep_evaluations') < 40:
+        reasons.append('fewer than 40 evaluations on documents deeper than the recursion limit')
     if v.got('public_form') < 500:
         reasons.append('fewer than 500 public call-form comparisons')
     return reasons
